@@ -26,6 +26,12 @@ pub struct Opts {
     pub protect_borrowed: bool,
     /// count cover keys for the scenario named here
     pub cover: Cover,
+    /// fault model "unwound operation, object kept": the `&mut` receiver of a documented-failure operation is NOT
+    /// re-initialised after the panic but stays in the machine in whatever state the unwinding left it, and later
+    /// steps keep using it. Nothing is promised about the *value* of such an object or of anything computed from it
+    /// (taint is propagated and value / failure-class oracles are off for tainted steps), but the memory-safety
+    /// oracles stay on: no signal, no guard-page hit, borrowed operands untouched, text still ASCII.
+    pub keep_unwound: bool,
 }
 
 #[derive(Clone, Copy, Debug, Default, PartialEq)]
@@ -366,6 +372,39 @@ fn check_c04(
     true
 }
 
+/// Registers a step names (conservatively: every index field, in both register files, plus the extra
+/// destinations of the multi-result operations) and the registers it may write when it unwinds.
+fn named_masks(s: &Step) -> (u8, u8) {
+    let mut mu = 0u8;
+    let mut mi = 0u8;
+    for k in ["a", "b", "c", "d"] {
+        let x = s.us(k);
+        mu |= 1 << (x % NU);
+        mi |= 1 << (x % NI);
+    }
+    let (du, di) = dest_masks(s);
+    (mu | du, mi | di)
+}
+
+fn dest_masks(s: &Step) -> (u8, u8) {
+    let d = s.us("d");
+    let mut mu = 0u8;
+    let mut mi = 0u8;
+    for j in 0..3 {
+        mu |= 1 << ((d + j) % NU);
+        mi |= 1 << ((d + j) % NI);
+    }
+    if s.op.ends_with(".swap") {
+        mu |= 1 << (s.us("a") % NU);
+        mi |= 1 << (s.us("a") % NI);
+    }
+    if s.op.starts_with("u.") {
+        (mu, 0)
+    } else {
+        (0, mi)
+    }
+}
+
 pub fn run_history(plan: &Plan, opts: Opts) -> RunResult {
     let mut res = RunResult::default();
     let mut dg = Digest::new();
@@ -375,12 +414,18 @@ pub fn run_history(plan: &Plan, opts: Opts) -> RunResult {
     let mut prov_u = vec![0u64; NU];
     let mut prov_i = vec![0u64; NI];
     let mut shadow = Shadow::of(&m);
+    // registers holding an object left behind by an unwound operation, or anything computed from one
+    let mut poison_u = 0u8;
+    let mut poison_i = 0u8;
     if opts.guard_alloc {
         simalloc::begin_run(plan.hash());
     }
     for (si, s) in plan.steps.iter().enumerate() {
         at_step(si);
         let op = s.op.as_str();
+        if op.starts_with("snap.") && (poison_u | poison_i) != 0 {
+            continue;
+        }
         if op == "snap.u" {
             if arch_u.len() < 10 {
                 arch_u.push(m.u[s.us("a") % NU].clone());
@@ -393,7 +438,20 @@ pub fn run_history(plan: &Plan, opts: Opts) -> RunResult {
             }
             continue;
         }
-        let exp = m.expect(s);
+        let tainted = opts.keep_unwound && {
+            let (nu, ni) = named_masks(s);
+            (nu & poison_u) != 0 || (ni & poison_i) != 0
+        };
+        if tainted
+            && (matches!(op, "u.int" | "i.int" | "u.root" | "i.root" | "u.modpow" | "i.modpow" | "u.modinv" | "i.modinv" | "u.pow" | "i.pow" | "u.powbig" | "u.rand" | "i.rand")
+                || (op.ends_with(".checked") && s.str("o") == "pow"))
+        {
+            // iterate-until-zero / until-converged algorithms: their termination argument assumes well-formed
+            // values, and nothing (not even termination) is promised for unwound objects
+            res.reach("skipped_steps");
+            continue;
+        }
+        let exp = if tainted { catch(|| m.expect(s)).unwrap_or(Expect::Skip) } else { m.expect(s) };
         if exp == Expect::Skip {
             res.reach("skipped_steps");
             continue;
@@ -405,7 +463,8 @@ pub fn run_history(plan: &Plan, opts: Opts) -> RunResult {
         let mut protected: Vec<(usize, usize)> = Vec::new();
         if opts.guard_alloc {
             simalloc::set_mode(simalloc::GUARD);
-            if opts.protect_borrowed {
+            if opts.protect_borrowed && !tainted {
+                // (not for steps over unwound objects: an object without a buffer of its own would make `last_alloc` name a foreign block)
                 // give the registers this step only borrows their own read-only pages
                 let d = s.us("d");
                 let is_u = op.starts_with("u.");
@@ -446,7 +505,16 @@ pub fn run_history(plan: &Plan, opts: Opts) -> RunResult {
                 }
             }
         }
+        if tainted {
+            // safety net for the rule above: a hang in such a step abandons the run without a verdict
+            crate::sup::TOLERATE_HANG.store(true, std::sync::atomic::Ordering::Relaxed);
+            crate::sup::arm_watchdog(2);
+        }
         let out = catch(|| m.apply(s, &mut dg, &mut obs));
+        if tainted {
+            crate::sup::arm_watchdog(crate::sup::watchdog_secs());
+            crate::sup::TOLERATE_HANG.store(false, std::sync::atomic::Ordering::Relaxed);
+        }
         if op.ends_with(".arrive") && !obs.skipped {
             res.fault(match s.int("f") {
                 0 => "arrival.rng_stream",
@@ -463,6 +531,64 @@ pub fn run_history(plan: &Plan, opts: Opts) -> RunResult {
         if opts.guard_alloc {
             simalloc::set_mode(simalloc::PLAIN);
         }
+        if tainted {
+            // a step over an unwound object: returning and panicking are both acceptable, values are unspecified;
+            // what was written is tainted as well. Only the memory-safety oracles below apply.
+            res.fault("unwound.object_reused");
+            let (du, di) = dest_masks(s);
+            match &out {
+                Ok(()) => {
+                    poison_u |= obs.wrote_u;
+                    poison_i |= obs.wrote_i;
+                    dg.u64(0x7a1);
+                }
+                Err(_) => {
+                    poison_u |= du;
+                    poison_i |= di;
+                    obs.wrote_u = 0xff;
+                    obs.wrote_i = 0xff;
+                    obs.texts.clear();
+                    dg.u64(0x7a2);
+                }
+            }
+            if opts.c15 {
+                for (txt, radix, _) in &obs.texts {
+                    // (digit strings of an unspecified value: only the alphabet is judged - valid UTF-8, ASCII apart
+                    // from the fill characters the step itself asked for)
+                    let fills = "\u{2665}\u{e9}\u{2192}\u{1f600}";
+                    if std::str::from_utf8(txt.as_bytes()).is_err() || txt.chars().any(|c| !c.is_ascii() && !(*radix == u32::MAX && fills.contains(c))) {
+                        res.violate("C15", "ascii", &api, si, format!("non-ASCII text from an unwound object: {:?}", &txt.as_bytes()[..txt.len().min(80)]));
+                        res.digest = dg.0;
+                        return res;
+                    }
+                }
+                for r in 0..NU {
+                    if obs.wrote_u & (1 << r) == 0 && raw64(&m.u[r]) != shadow.u[r] {
+                        res.violate("C15", "borrowed-operand-modified", &api, si, format!("BigUint register {r} changed although the step only borrowed it"));
+                        res.digest = dg.0;
+                        return res;
+                    }
+                }
+                for r in 0..NI {
+                    if obs.wrote_i & (1 << r) == 0 && (m.i[r].sign(), raw64(m.i[r].magnitude())) != shadow.i[r] {
+                        res.violate("C15", "borrowed-operand-modified", &api, si, format!("BigInt register {r} changed although the step only borrowed it"));
+                        res.digest = dg.0;
+                        return res;
+                    }
+                }
+            }
+            for r in 0..NU {
+                if obs.wrote_u & (1 << r) != 0 {
+                    shadow.u[r] = raw64(&m.u[r]);
+                }
+            }
+            for r in 0..NI {
+                if obs.wrote_i & (1 << r) != 0 {
+                    shadow.i[r] = (m.i[r].sign(), raw64(m.i[r].magnitude()));
+                }
+            }
+            continue;
+        }
         // --- the global C14 invariant ---------------------------------------------------------
         match (&exp, &out) {
             (Expect::Panic(class), Ok(())) => {
@@ -473,7 +599,14 @@ pub fn run_history(plan: &Plan, opts: Opts) -> RunResult {
             (Expect::Panic(class), Err(_)) => {
                 res.fault("panic.inject");
                 dg.str(class);
-                reset_written(&mut m, s);
+                if opts.keep_unwound {
+                    let (du, di) = dest_masks(s);
+                    poison_u |= du;
+                    poison_i |= di;
+                    res.fault("unwound.object_kept");
+                } else {
+                    reset_written(&mut m, s);
+                }
                 obs.wrote_u = 0xff;
                 obs.wrote_i = 0xff;
                 if opts.cover == Cover::C14 {
@@ -514,6 +647,11 @@ pub fn run_history(plan: &Plan, opts: Opts) -> RunResult {
                 dg.u64(obs.none as u64);
             }
             (Expect::Skip, _) => unreachable!(),
+        }
+        if opts.keep_unwound && !matches!((&exp, &out), (Expect::Panic(_), Err(_))) {
+            // a clean step overwrote these registers with values computed from clean operands only
+            poison_u &= !obs.wrote_u;
+            poison_i &= !obs.wrote_i;
         }
         // --- C15 oracles ------------------------------------------------------------------------
         if opts.c15 {
